@@ -154,18 +154,24 @@ class Curve(CellObject):
 
     @parts.setter
     def parts(self, indices: list | np.ndarray):
-        if self.vertices is not None:
-            if isinstance(indices, list):
-                indices = np.asarray(indices, dtype="int32")
-            else:
-                indices = indices.astype("int32")
+        if isinstance(indices, list):
+            indices = np.asarray(indices, dtype="int32")
+        else:
+            indices = indices.astype("int32")
 
-            assert indices.shape == (
-                self.vertices.shape[0],
-            ), f"Provided parts must be of shape {self.vertices.shape[0]}"
+        if self.vertices is None:
+            # Labels given before the vertices (e.g. keyword order on creation):
+            # kept, the segments are derived once the vertices are known.
             self._parts = indices
             self._cells = None
-            self.workspace.update_attribute(self, "cells")
+            return
+
+        assert indices.shape == (
+            self.vertices.shape[0],
+        ), f"Provided parts must be of shape {self.vertices.shape[0]}"
+        self._parts = indices
+        self._cells = None
+        self.workspace.update_attribute(self, "cells")
 
     @property
     def unique_parts(self):
